@@ -1,2 +1,3 @@
 pub mod c15;
 pub mod c02;
+pub mod c14;
